@@ -442,6 +442,8 @@ fn history_strategy() -> impl Strategy<Value = History> {
                 }
                 v
             }),
+            // blank and nearly blank tokens (a token is whatever string the caller passes)
+            1 => Just(vec!["".to_string(), " ".to_string(), "\t ".to_string(), "  x".to_string(), "x".to_string()]),
             // long tokens that differ only behind a common prefix of 7 .. 63 characters (distinct tokens are distinct
             // transactions, however much they have in common)
             1 => (proptest::sample::select(vec![7usize, 15, 16, 31, 32, 33, 40, 63]), "[a-z0-9/-]{63}", any::<bool>()).prop_map(|(n, base, case)| {
@@ -533,6 +535,9 @@ pub fn run(prop: &'static str, tier: Tier) -> i32 {
             let (exp, _) = walk(h);
             st.case(nontrivial(&exp, h.steps.len()), fnv(&serde_json::to_vec(h).unwrap()));
             st.class(if h.steps.len() > 10 { "walk:len>10" } else { "walk:len<=10" });
+            if h.tokens[0].is_empty() {
+                st.class("walk:blank-tokens");
+            }
             if h.tokens.iter().all(|t| t.len() >= 7) && h.tokens[0][..7] == h.tokens[1][..7] {
                 st.class("walk:long-tokens-with-a-common-prefix");
             }
@@ -554,7 +559,7 @@ pub fn run(prop: &'static str, tier: Tier) -> i32 {
     stats.exhaustive_parts = vec![format!("all begin/commit/cancel histories over 3 tokens x max 0..3: every terminal outcome combination up to length {d_out}, success-only up to length {d_succ}; each followed by a drain (cancel of every token)")];
     let (rule, assume): (&str, Vec<&str>) = if prop == "C07" {
         (
-            "real Feig client vs simulated terminal (paused time) stepped alongside a reference ClientModel {open: token -> receipt, max}. Histories: bounded-exhaustive over 3 tokens x max 0..3 x terminal outcomes {success with generated (possibly repeated) receipt, abort, no receipt; completion, abort}, then proptest walks to length 40 over 5 tokens (two arbitrary CP437 strings, or five long tokens that differ only behind a common prefix of 7..63 characters). After every call: result class, traffic (refused: zero bytes and no connection; accepted begin: exactly one Reservation; commit/cancel: first request carries that token's receipt); at the end a drain cancels every token of the alphabet. non-trivial = history with a refused call and an accepted commit/cancel; distinct by (config, history, outcomes)",
+            "real Feig client vs simulated terminal (paused time) stepped alongside a reference ClientModel {open: token -> receipt, max}. Histories: bounded-exhaustive over 3 tokens x max 0..3 x terminal outcomes {success with generated (possibly repeated) receipt, abort, no receipt; completion, abort}, then proptest walks to length 40 over 5 tokens (two arbitrary CP437 strings, five long tokens that differ only behind a common prefix of 7..63 characters, or blank / nearly blank tokens). After every call: result class, traffic (refused: zero bytes and no connection; accepted begin: exactly one Reservation; commit/cancel: first request carries that token's receipt); at the end a drain cancels every token of the alphabet. non-trivial = history with a refused call and an accepted commit/cancel; distinct by (config, history, outcomes)",
             vec!["requests are decoded by the reference codec, never by the repo's", "fault-free transport; faults are C09/C10"],
         )
     } else {
